@@ -660,6 +660,12 @@ def check_table(ctx, name, f, loop, tab):
         ext = {'paths': len(sums), 'signature': sorted(map(str, got))}
         if got == want:
             run.ok('R-DEG', f, role, f.nodes[loop.hid].lineno, extracted=ext, expected=sorted(map(str, want)))
+        elif any(g[0] == 'exit' and g[1] in ('break', 'return') for g in got) and name == 'decode':
+            run.refute('R-DEG', f, role, f.nodes[loop.hid].lineno,
+                       "the loop over the strand can be left early (%s) at out-degree %d: the symbols after that point are "
+                       "never checked against the graph, so a strand that is not a walk is accepted"
+                       % (sorted(g[1] for g in got if g[0] == 'exit'), deg), extracted=ext, expected=sorted(map(str, want)),
+                       inputs='a valid prefix followed by symbols that are not arcs')
         elif len(got) > 1 and want <= got:
             run.undecided('R-DEG', f, role, f.nodes[loop.hid].lineno,
                           'the branch tests do not determine one behaviour for this abstract case (%s): the dispatch is '
